@@ -51,6 +51,15 @@ pub fn kill_and_poll(ctx: &mut Ctx, sim: &mut Sim) -> Option<(String, String)> {
     let ready_fds = crate::sim::epoll_interest(sim.epfd).len();
     ctx.rep.max("max_descriptors_in_epoll_set_when_signalled", ready_fds as u64);
     let state = describe_state(sim);
+    if sim.kill.is_none() {
+        ctx.rep.count("kill_switch_handed_to_a_running_server");
+        if let Err(e) = sim.attach_kill_switch() {
+            return Some(("kill-switch-refused".into(), format!("add_kill_switch on a running server failed: {} ({})", e, state)));
+        }
+        if sim.gens.iter().any(|g| g.stream.is_some()) {
+            ctx.rep.count("kill_switch_handed_to_a_server_with_connections");
+        }
+    }
     sim.signal_kill();
     for k in 0..5 {
         if !sim.ready() {
@@ -68,7 +77,11 @@ pub fn kill_and_poll(ctx: &mut Ctx, sim: &mut Sim) -> Option<(String, String)> {
 
 impl HistoryProp for P18 {
     fn new_sim(&mut self, _ctx: &mut Ctx) -> Option<Sim> {
-        Sim::new(true, None).ok()
+        // every third history the server is started WITHOUT a kill switch; it is handed one only when the
+        // history is over (a running, possibly busy server), just before it is signalled
+        static MADE: std::sync::atomic::AtomicU64 = std::sync::atomic::AtomicU64::new(0);
+        let late = MADE.fetch_add(1, std::sync::atomic::Ordering::Relaxed) % 3 == 2;
+        Sim::new(!late, None).ok()
     }
 
     fn enabled(&self, sim: &Sim) -> Vec<Act> {
